@@ -421,12 +421,13 @@ class Gen:
             if r.random() < 0.5:
                 br.insert(0, {"k": "prim", "name": "null"})
             return {"k": "union", "br": br}
-        if r.random() < 0.1:
+        if r.random() < 0.13:
             # primitives one of which promotes to an earlier one: the branch of the value's own type comes after a promotion target
             chain = r.choice([["bytes", "string"], ["string", "bytes"], ["bytes", "string"], ["string", "bytes"], ["double", "int"], ["long", "int"], ["double", "float", "long", "int"],
                               ["float", "long"], ["double", "long"], ["double", "float"],
                               # ... and the other way round: the first conforming branch is decided at the range boundaries
-                              ["int", "long"], ["int", "double"], ["float", "double"], ["float", "double"], ["int", "long", "double"], ["long", "double"],
+                              ["int", "long"], ["int", "double"], ["float", "double"], ["float", "double"], ["float", "double"], ["float", "double"],
+                              ["int", "long", "double"], ["long", "double"],
                               ["int", "long"]])
             br = [{"k": "prim", "name": x} for x in chain]
             if r.random() < 0.5:
@@ -450,7 +451,7 @@ class Gen:
             br.insert(r.randint(0, len(br)), {"k": "prim", "name": "null"})
         errs = [full for full, d in self.defs.items() if d.get("error") and full not in self.open and "named:" + full not in used
                 and not (d["ns"] == "" and ns != "")]
-        if errs and r.random() < 0.5:
+        if errs and r.random() < 0.8:
             br.append({"k": "ref", "full": r.choice(errs)})     # an "error" record referred to by name (after everything defined here)
         return {"k": "union", "br": br}
 
